@@ -36,8 +36,14 @@ pub fn regime_name(r: Regime) -> &'static str {
     }
 }
 
+pub static THOROUGH: std::sync::atomic::AtomicBool = std::sync::atomic::AtomicBool::new(false);
+
 pub fn run_generated(pname: &str, seed: u64) -> RunOut {
     let mut gen = Gen::new(seed, profile(pname));
+    gen.deep = THOROUGH.load(Ordering::Relaxed);
+    if cfg!(feature = "f32") {
+        gen.p.integer_only = true;
+    }
     let regime = gen.regime;
     let mut sim = Sim::new(SimCfg { regime, monitors: true, guard_mag: false });
     let mut trace = Vec::new();
@@ -274,6 +280,9 @@ pub struct Agg {
     pub nontrivial_sample: Option<(u64, serde_json::Value)>,
     pub forks: u64,
     pub configs: BTreeMap<String, u64>,
+    pub harness_panics: u64,
+    /// for the first violating runs of each worker: the traces that worker executed before (same thread)
+    pub history: BTreeMap<(String, u64), Vec<(Vec<Ev>, Regime)>>,
 }
 
 pub fn abstract_hash(trace: &[Ev]) -> u64 {
@@ -411,12 +420,12 @@ pub fn plan_for(prop: &str, tier: &str, seed: u64) -> Plan {
     let others: Vec<&str> = match prop {
         "C01" => vec!["C03", "C10", "C11", "C09"],
         "C03" => vec!["C01", "C13"],
-        "C08" => vec!["C10", "C13", "C18", "C11"],
+        "C08" => vec!["C10", "C13", "C18", "C11", "C14"],
         "C09" => vec!["C01", "C10", "C18"],
         "C10" => vec!["C01", "C11", "C09"],
         "C11" => vec!["C01", "C10"],
-        "C13" => vec!["C03", "C08"],
-        "C18" => vec!["C08", "C10", "C09"],
+        "C13" => vec!["C03", "C08", "C14"],
+        "C18" => vec!["C08", "C10", "C09", "C14"],
         "C12" => vec!["C01", "C10", "C18"],
         "C14" => vec![],
         _ => vec!["C01"],
@@ -475,6 +484,7 @@ fn absorb(agg: &mut Agg, prop: &str, pname: &str, idx: u64, seed: u64, out: &Run
         ("alias_checks", c.alias_checks),
         ("updates", c.updates),
         ("updates_frozen_middle", c.updates_frozen_middle),
+        ("reference_adjoint_selfchecks", c.reference_selfchecks),
         ("train_iterations", s.train.iterations),
         ("train_iterations_judged_against_reference", s.train.judged_abs),
         ("train_iterations_judged_against_restart", s.train.judged_restart),
@@ -531,6 +541,11 @@ fn absorb(agg: &mut Agg, prop: &str, pname: &str, idx: u64, seed: u64, out: &Run
         let e = agg.probes.entry("max_reachable_nodes".into()).or_insert(0);
         *e = (*e).max(p.reach.len() as u64);
         *agg.probes.entry("user_closure_invocations".into()).or_insert(0) += p.invocations as u64;
+        *agg.probes.entry("engine_node_visits_hook".into()).or_insert(0) += p.engine_steps;
+        if p.engine_size > 0 {
+            let e = agg.probes.entry("max_engine_visits_per_100_nodes_and_edges".into()).or_insert(0);
+            *e = (*e).max(p.engine_steps * 100 / p.engine_size);
+        }
     }
     agg.digest_xor ^= out.digest.rotate_left((idx % 63) as u32);
     agg.digest_sum = agg.digest_sum.wrapping_add(out.digest.wrapping_mul(idx | 1));
@@ -601,6 +616,8 @@ fn merge(a: &mut Agg, b: Agg) {
     for (k, v) in b.configs {
         *a.configs.entry(k).or_insert(0) += v;
     }
+    a.harness_panics += b.harness_panics;
+    a.history.extend(b.history);
     a.viols.extend(b.viols);
     a.samples.extend(b.samples);
     match (&a.nontrivial_sample, b.nontrivial_sample) {
@@ -608,6 +625,33 @@ fn merge(a: &mut Agg, b: Agg) {
         (Some((i, _)), Some((j, s))) if j < *i => a.nontrivial_sample = Some((j, s)),
         _ => {}
     }
+}
+
+/// Shifts the event indices inside a relational violation's payload (C12 perturbations, C17 case)
+/// when the trace gets a prefix of `off` events.
+pub fn offset_extra(extra: &serde_json::Value, off: usize) -> serde_json::Value {
+    let mut e = extra.clone();
+    if let Some(c) = e.get_mut("case") {
+        if let Some(ev) = c.get("event").and_then(|x| x.as_u64()) {
+            c["event"] = json!(ev + off as u64);
+        }
+    }
+    if let Some(ps) = e.get_mut("perturb").and_then(|p| p.as_array_mut()) {
+        for p in ps.iter_mut() {
+            if let Some(obj) = p.as_object_mut() {
+                for (_, inner) in obj.iter_mut() {
+                    if let Some(j) = inner.get("j").and_then(|x| x.as_u64()) {
+                        inner["j"] = json!(j + off as u64);
+                    }
+                }
+            }
+        }
+    }
+    e
+}
+
+pub fn in_fresh_thread<T: Send, F: FnOnce() -> T + Send>(f: F) -> T {
+    std::thread::scope(|sc| std::thread::Builder::new().stack_size(1 << 30).spawn_scoped(sc, f).unwrap().join().unwrap())
 }
 
 pub fn workers() -> usize {
@@ -626,7 +670,19 @@ pub fn relational(prop: &str, pname: &str, tier: &str, idx: u64, out: &RunOut, s
     let prop = if prop == "C19" { pname } else { prop };
     match prop {
         "C10" => {
-            let (viols, forks, _) = crate::relational::c10_solo(out);
+            let (mut viols, mut forks, _) = crate::relational::c10_solo(out);
+            if viols.is_empty() && idx % 4 == 0 {
+                let (v2, f2) = crate::relational::c10_sweep(out, seed, tier == "thorough" && idx % 16 == 0);
+                viols.extend(v2);
+                forks += f2;
+            }
+            RelOut { viols, forks, nontrivial: None, sample: serde_json::Value::Null }
+        }
+        "C18" => {
+            if idx % 4 != 0 {
+                return RelOut { viols: vec![], forks: 0, nontrivial: None, sample: serde_json::Value::Null };
+            }
+            let (viols, forks, _) = crate::relational::c18_orders(out, seed, tier == "thorough" && idx % 16 == 0);
             RelOut { viols, forks, nontrivial: None, sample: serde_json::Value::Null }
         }
         "C12" => {
@@ -655,7 +711,7 @@ pub fn run_batch(plan: &Plan, wall_cap_s: f64) -> (Agg, bool) {
     for (pname, nruns) in &plan.mix {
         let counter = Arc::new(AtomicU64::new(0));
         let mut handles = Vec::new();
-        for _ in 0..nw {
+        for wid in 0..nw {
             let counter = counter.clone();
             let total = total.clone();
             let pname = pname.clone();
@@ -665,21 +721,32 @@ pub fn run_batch(plan: &Plan, wall_cap_s: f64) -> (Agg, bool) {
             let base = plan.seed;
             let label = format!("{}/{}", plan.prop, pname);
             let h = std::thread::Builder::new()
-                .stack_size(512 << 20)
+                .stack_size(1 << 30)
                 .spawn(move || {
+                    let _ = &counter;
                     let mut agg = Agg::default();
-                    loop {
-                        let i = counter.fetch_add(1, Ordering::Relaxed);
-                        if i >= nruns {
-                            break;
-                        }
+                    // static striding: worker w executes runs w, w+nw, ... so that the sequence of runs a
+                    // thread sees is a function of (seed, worker count) only
+                    let mut recent: std::collections::VecDeque<(Vec<Ev>, Regime)> = std::collections::VecDeque::new();
+                    let mut i = wid as u64;
+                    while i < nruns {
                         if start.elapsed().as_secs_f64() > wall_cap_s {
                             break;
                         }
                         let seed = derive(base, &label, i);
                         let out = run_generated(&pname, seed);
                         let rel = relational(&prop, &pname, &tier, i, &out, seed);
+                        let nv = agg.viols.len();
+                        let (tr, rg) = (out.trace.clone(), out.regime);
                         absorb(&mut agg, &prop, &pname, i, seed, &out, rel);
+                        if agg.viols.len() > nv && agg.history.len() < 8 {
+                            agg.history.insert((pname.clone(), i), recent.iter().cloned().collect());
+                        }
+                        recent.push_back((tr, rg));
+                        if recent.len() > 300 {
+                            recent.pop_front();
+                        }
+                        i += nw as u64;
                     }
                     let mut t = total.lock().unwrap();
                     merge(&mut t, agg);
@@ -828,11 +895,16 @@ pub fn check(prop: &str, tier: &str) -> i32 {
     }
     let seed: u64 = std::env::var("VERIF_SEED").ok().and_then(|s| s.parse().ok()).unwrap_or(1);
     let start = Instant::now();
+    THOROUGH.store(tier == "thorough", Ordering::Relaxed);
     let plan = plan_for(prop, tier, seed);
     let cap = if tier == "thorough" { 1500.0 } else { 240.0 };
     println!("corgisim check {} tier={} seed={} build={} workers={} mix={:?}", prop, tier, seed, build_name(), workers(), plan.mix);
     let (mut agg, capped) = run_batch(&plan, cap);
     let kf = load_findings();
+    if agg.harness_panics > 0 {
+        eprintln!("harness error: {} runs panicked inside the simulator itself: {}", agg.harness_panics, crate::last_panic());
+        return 2;
+    }
 
     // triage
     agg.viols.sort_by(|a, b| (a.0.as_str(), a.1).cmp(&(b.0.as_str(), b.1)));
@@ -852,43 +924,38 @@ pub fn check(prop: &str, tier: &str) -> i32 {
         println!("KNOWN-FINDING: property={} {} [{} x{}]", prop, what, id, n);
     }
     let mut exit = 0;
-    let mut reported = 0usize;
-    let mut seen_monitors: BTreeSet<String> = BTreeSet::new();
-    for ((monitor, class), (pname, idx, rseed, v, count)) in &groups {
-        // one replay per monitor (the classes of one monitor usually share a cause); cap the work
-        if !seen_monitors.insert(monitor.clone()) || reported >= 4 {
-            println!("  (also: {} x{} [{}])", monitor, count, class);
-            continue;
+    // instances per monitor, smallest run index first
+    let mut per_monitor: BTreeMap<String, Vec<(String, u64, u64, Violation)>> = BTreeMap::new();
+    for (pname, idx, rseed, v) in &agg.viols {
+        if match_finding(&kf, v).is_none() {
+            per_monitor.entry(v.monitor.to_string()).or_default().push((pname.clone(), *idx, *rseed, v.clone()));
         }
-        reported += 1;
-        let out = run_generated(pname, *rseed);
-        let regime = out.regime;
-        let (judge_full, keep_indices) = judge_for(monitor, regime, &v.extra);
-        let full_path = write_replay(prop, pname, *idx, *rseed, seed, regime, &out.trace, v, "-full");
-        let min = ddmin(&*judge_full, &out.trace, prop, monitor, &kf, None, keep_indices);
-        let mv = judge_full(&min).into_iter().find(|x| counts_for(x.prop, prop) && x.monitor == *monitor && match_finding(&kf, x).is_none());
-        let (path, shown) = match mv {
-            Some(mut mv) => {
-                if mv.extra.is_null() {
-                    mv.extra = v.extra.clone();
+    }
+    for ((monitor, class), (_, _, _, _, count)) in &groups {
+        println!("  (also: {} x{} [{}])", monitor, count, class);
+    }
+    let mut irreproducible: Vec<String> = Vec::new();
+    for (monitor, instances) in per_monitor.iter().take(4) {
+        let mut done = false;
+        for (pname, idx, rseed, v) in instances.iter().take(6) {
+            match triage_one(prop, seed, pname, *idx, *rseed, v, &kf, agg.history.get(&(pname.clone(), *idx))) {
+                Some((path, shown)) => {
+                    println!("violation [{} x{}] {}: {}", monitor, instances.len(), shown.class, shown.detail);
+                    println!("VIOLATION property={} replay={}", prop, path);
+                    exit = 1;
+                    done = true;
+                    break;
                 }
-                (write_replay(prop, pname, *idx, *rseed, seed, regime, &min, &mv, ""), mv)
-            }
-            None => (full_path.clone(), v.clone()),
-        };
-        // verify in a fresh process
-        let exe = std::env::current_exe().unwrap();
-        let st = std::process::Command::new(exe).args(["replay", &path]).stdout(std::process::Stdio::null()).status();
-        match st {
-            Ok(s) if s.code() == Some(1) => {}
-            other => {
-                eprintln!("harness error: replay {} did not reproduce in a fresh process ({:?}); nondeterminism in the harness", path, other);
-                return 2;
+                None => continue,
             }
         }
-        println!("violation [{} x{}] {}: {}", monitor, count, shown.class, shown.detail);
-        println!("VIOLATION property={} replay={}", prop, path);
-        exit = 1;
+        if !done {
+            irreproducible.push(format!("{} (x{}, first at {}/{})", monitor, instances.len(), instances[0].0, instances[0].1));
+        }
+    }
+    if exit == 0 && !irreproducible.is_empty() {
+        eprintln!("harness error: violations were observed in the batch but none could be reproduced in a fresh thread (alone or after the runs that preceded it on the same worker thread): {:?}", irreproducible);
+        return 2;
     }
 
     // evidence
@@ -969,6 +1036,78 @@ pub fn check(prop: &str, tier: &str) -> i32 {
         exit
     );
     exit
+}
+
+/// Reproduces one violating run in fresh threads (alone, then after the runs that preceded it on
+/// the same worker thread, separated by NewWorld markers), minimises it and writes the replay
+/// file, which must fail again in a fresh process. None when it cannot be reproduced.
+#[allow(clippy::too_many_arguments)]
+fn triage_one(prop: &str, seed: u64, pname: &str, idx: u64, rseed: u64, v: &Violation, kf: &Findings, history: Option<&Vec<(Vec<Ev>, Regime)>>) -> Option<(String, Violation)> {
+    let monitor = v.monitor.to_string();
+    let (mut t0, regime) = {
+        let pn = pname.to_string();
+        in_fresh_thread(move || {
+            let o = run_generated(&pn, rseed);
+            (o.trace, o.regime)
+        })
+    };
+    // systematic sweeps judge a transformation of the generated trace and carry it along
+    if let Some(alt) = v.extra.get("trace") {
+        if let Ok(evs) = serde_json::from_value::<Vec<Ev>>(alt.clone()) {
+            t0 = evs;
+        }
+    }
+    let mon = monitor.clone();
+    let judge_with = move |evs: &[Ev], extra: &serde_json::Value| -> Vec<Violation> {
+        let evs = evs.to_vec();
+        let mon = mon.clone();
+        let extra = extra.clone();
+        in_fresh_thread(move || (judge_for(&mon, regime, &extra).0)(&evs))
+    };
+    let keep_indices = judge_for(&monitor, regime, &v.extra).1;
+    let mut candidates: Vec<(Vec<Ev>, serde_json::Value)> = vec![(t0.clone(), v.extra.clone())];
+    if let Some(h) = history {
+        for take in [1usize, 3, 20, h.len()] {
+            if take == 0 || take > h.len() {
+                continue;
+            }
+            let mut c: Vec<Ev> = Vec::new();
+            for (t, r) in &h[h.len() - take..] {
+                c.push(Ev::NewWorld { smooth: *r == Regime::Smooth });
+                c.extend(t.iter().cloned());
+            }
+            c.push(Ev::NewWorld { smooth: regime == Regime::Smooth });
+            c.extend(t0.iter().cloned());
+            let off = c.len() - t0.len();
+            candidates.push((c, offset_extra(&v.extra, off)));
+        }
+    }
+    let hit = |vs: &[Violation]| vs.iter().any(|x| counts_for(x.prop, prop) && x.monitor == monitor && match_finding(kf, x).is_none());
+    let (base_trace, extra_sel) = candidates.into_iter().find(|c| hit(&judge_with(&c.0, &c.1)))?;
+    let mut v = v.clone();
+    v.extra = extra_sel.clone();
+    let judge_iso = move |evs: &[Ev]| -> Vec<Violation> { judge_with(evs, &extra_sel) };
+    let full_path = write_replay(prop, pname, idx, rseed, seed, regime, &base_trace, &v, "-full");
+    let min = ddmin(&judge_iso, &base_trace, prop, &monitor, kf, None, keep_indices);
+    let mv = judge_iso(&min).into_iter().find(|x| counts_for(x.prop, prop) && x.monitor == monitor && match_finding(kf, x).is_none());
+    let exe = std::env::current_exe().unwrap();
+    let reproduces = |path: &str| -> bool {
+        let st = std::process::Command::new(&exe).args(["replay", path]).stdout(std::process::Stdio::null()).status();
+        matches!(st, Ok(s) if s.code() == Some(1))
+    };
+    if let Some(mut mv) = mv {
+        if mv.extra.is_null() {
+            mv.extra = v.extra.clone();
+        }
+        let path = write_replay(prop, pname, idx, rseed, seed, regime, &min, &mv, "");
+        if reproduces(&path) {
+            return Some((path, mv));
+        }
+    }
+    if reproduces(&full_path) {
+        return Some((full_path, v));
+    }
+    None
 }
 
 fn rule_text(prop: &str) -> String {
